@@ -140,6 +140,12 @@ func mergeAndValidateOIDCConfigs(cfg *configv1.Config) error {
 				f.Type = &configv1.Filter_Oidc{Oidc: oidc}
 			}
 
+			// Filters without an OIDC configuration (e.g. no type set at all) have nothing to merge
+			// or default here; they are rejected by the final validation.
+			if f.GetOidc() == nil {
+				continue
+			}
+
 			if f.GetOidc().GetConfigurationUri() == "" {
 				if f.GetOidc().GetAuthorizationUri() == "" {
 					errs = append(errs, fmt.Errorf("%w: missing authorization URI in chain %q", ErrRequiredURL, fc.Name))
